@@ -611,7 +611,7 @@ impl Prop for C13 {
         "model_checking"
     }
     fn rule(&self) -> String {
-        "crash-point enumeration on the real code: 5 protocols (DKG, distributed refresh, dealer refresh, preprocessed signing, repair; each followed by a signing run) x suites x shapes x {the types' own postcard serialize/deserialize, JSON, component-wise custom serialization through getters + serialize_whole + new()}; a boundary = a point where a participant holds state between calls (round-1/2 secret packages, key/public packages, nonces, nonce batches) or a message is in transit; a mask selects boundaries at which the value is encoded, dropped and the decoded copy used from then on. Enumerated: every mask with <= 2 crashes (quick) / every mask over the secret-state boundaries x {no, all} transit (thorough), and the all-ones mask. Oracle: every later step accepts the restored state and EVERY output (packages, key material, shares, signature) is byte-identical to the uninterrupted run. states = (protocol, mask) executions; transitions = boundaries crossed; traces = complete resumed runs compared".into()
+        "crash-point enumeration on the real code: 7 protocols (DKG, distributed refresh, dealer refresh, preprocessed signing, repair, each followed by a signing run; and part two of a 72-of-72 DKG / distributed refresh whose secret package is several kilobytes) x suites x shapes x {the types' own postcard serialize/deserialize, JSON, component-wise custom serialization through getters + serialize_whole + new()}; a boundary = a point where a participant holds state between calls (round-1/2 secret packages, key/public packages, nonces, nonce batches) or a message is in transit; a mask selects boundaries at which the value is encoded, dropped and the decoded copy used from then on. Enumerated: every mask with <= 2 crashes (quick) / every mask over the secret-state boundaries x {no, all} transit (thorough), and the all-ones mask. Oracle: every later step accepts the restored state and EVERY output (packages, key material, shares, signature) is byte-identical to the uninterrupted run. states = (protocol, mask) executions; transitions = boundaries crossed; traces = complete resumed runs compared".into()
     }
     fn assumptions(&self) -> Vec<String> {
         vec!["random sources are scripted per (participant, step), so the resumed and the uninterrupted run draw the same bytes".into()]
